@@ -3,6 +3,7 @@
 WT=$1; LIST=$2
 export GOFLAGS=-mod=mod GOPROXY=off; unset GOWORK
 cd $WT && git reset -q --hard && git clean -fdq && git checkout -q --detach $(git -C /repo rev-parse HEAD)
+[ -n "$APPLY" ] && { git apply $APPLY || { echo APPLY-FAILED; exit 1; }; }
 while read -r D; do
   [ -f "$D/meta.json" ] || continue
   place=$(jq -r '.demonstration.place_in' $D/meta.json); place=${place%/}
